@@ -17,23 +17,17 @@ HASHERS = {"Groestl224": (224, 8, "Groestl256"), "Groestl256": (256, 8, None),
 
 
 def arm_hooks(arm):
-    """Replace the lazy_static dispatchers by one concrete arm (each arm is checked in turn)."""
-    def mk(fn):
-        def h(it, key, args, callee):
-            tgt = "groestl_aesni::compressor::%s::%s" % (arm, fn)
-            if tgt not in it.ins:
-                # ssse3/sse2 re-export aes::init*: follow the re-export
-                tgt = "groestl_aesni::compressor::aes::%s" % fn
-            a = list(args)
-            if fn.startswith("tf"):
-                # autodetect passes data.as_ptr()
-                p = a[1]
-                gt = it.ty.get(it.ins[key]["body"]["locals"][2])["pointee"]
-                a[1] = Ptr(p.cell, p.path, idx=p.idx if p.idx is not None else 0, meta=None, ety="u8")
-            return it.call_instance(tgt, a)
-        return h
-    return {r"^groestl_aesni::compressor::autodetect::%s$" % fn: mk(fn)
-            for fn in ("tf512", "of512", "init512", "tf1024", "of1024", "init1024")}
+    """Pin the run-time CPU detection so that the lazy_static dispatchers select one arm (each arm is
+    checked in turn).  Nothing of the crate itself is replaced: the dispatcher, the function-pointer
+    table and the selected arm are interpreted from their MIR."""
+    feats = {"aes": {"aes": 1}, "ssse3": {"aes": 0, "ssse3": 1}, "sse2": {"aes": 0, "ssse3": 0, "sse2": 1}}[arm]
+
+    def detected(it, key, args, callee):
+        feat = key.rsplit("::", 1)[1]
+        if feat not in feats:
+            raise Undecided("CPU feature %s is consulted by the %s arm selection" % (feat, arm))
+        return (ONE if feats[feat] else ZERO,)
+    return {r"^std_detect::detect::arch::x86::__is_feature_detected::": detected}
 
 
 def c07_chain(report, cfg, arm, nblocks):
@@ -55,7 +49,11 @@ def c07_chain(report, cfg, arm, nblocks):
             exp_h = h
             for b in range(nblocks):
                 m, mcell = bytes_cell(it, "m%d" % b, bb)
-                it.call_instance(inp, [Ptr(ccell, ()), Ptr(mcell, ())])
+                bt = it.ty.get(f.instances[inp]["body"]["locals"][2])["pointee"]
+                if it.ty.kind(bt) == "slice":     # input(&[Block]): a run of one block
+                    it.call_instance(inp, [Ptr(ccell, ()), Ptr(mcell, (), idx=0, meta=1, ety="u8", vty=it.ty.get(bt)["elem"])])
+                else:
+                    it.call_instance(inp, [Ptr(ccell, ()), Ptr(mcell, ())])
                 exp_h = G.compress(exp_h, m, cols, G.ufn_sbox)
             out = it.call_instance(fin, [Ptr(ccell, ())])
             if it.asserts or it.panics:
@@ -87,8 +85,15 @@ def opaque_compressor_hooks(cname, words):
         st = it.ty.get(it.ins[key]["body"]["locals"][1])["pointee"]
         gt = it.ty.get(it.ins[key]["body"]["locals"][2])["pointee"]
         s = it.to_bits(it.deref_read(args[0], st), st)
-        m = it.to_bits(it.deref_read(args[1], gt), gt)
-        it.deref_write(args[0], st, it.from_bits(bv.ufn("G_INPUT", (s, m), len(s)), st))
+        if it.ty.kind(gt) == "slice":
+            # a run of blocks: absorbed one after the other
+            et = it.ty.get(gt)["elem"]
+            blocks = [it.to_bits(x, et) for x in it.slice_elems(args[1])]
+        else:
+            blocks = [it.to_bits(it.deref_read(args[1], gt), gt)]
+        for m in blocks:
+            s = bv.ufn("G_INPUT", (s, m), len(s))
+        it.deref_write(args[0], st, it.from_bits(s, st))
         return Agg(())
 
     def fin(it, key, args, callee):
